@@ -1,5 +1,6 @@
 import Mathlib.Algebra.Order.Field.Basic
 import Mathlib.Tactic.Linarith
+import XModel.Argmin
 /-! Order-only lemmas for the optimizer: the per-coordinate limit clamp of `JacobianSolver.step`, the
     weight scaling of `_x_to_knobs`, and `argmin` on a list of penalties. -/
 namespace Limits
@@ -37,15 +38,6 @@ theorem max_step_units (w m s : K) (hw : 0 < w) : |s| ≤ m / w ↔ |s * w| ≤ 
 end Limits
 
 namespace Argmin
-/-- `np.argmin`: index of the first minimum of a non-empty list (total order, no NaN) -/
-def argminAux {K : Type} [LinearOrder K] : List K → Nat → K → Nat → Nat
-  | [], _, _, best => best
-  | x :: rest, i, cur, best => if x < cur then argminAux rest (i + 1) x i else argminAux rest (i + 1) cur best
-
-def argmin {K : Type} [LinearOrder K] : List K → Nat
-  | [] => 0
-  | x :: rest => argminAux rest 1 x 0
-
 theorem argminAux_spec {K : Type} [LinearOrder K] (l : List K) (pre : List K) (cur : K) (best : Nat)
     (hb : best < pre.length) (hcur : pre[best]? = some cur) (hmin : ∀ y ∈ pre, cur ≤ y) :
     let r := argminAux l pre.length cur best
